@@ -124,6 +124,26 @@ func c18Fork(r *Run) {
 		res.F2.Ctx = res.F2.Ctx.WithBlockHeader(hd)
 	}
 	f.SwapTo(res.F2)
+	for _, co := range f.Co {
+		// a chain the package runs next to this one goes through the same export / import (what it reports
+		// is what the primary reported: same signatures, deduplicated by Violate)
+		if co == nil || co.App == nil {
+			continue
+		}
+		rc := c18Compare(r, co, append([]string(nil), c18fs.lines...))
+		if rc.F2 == nil {
+			r.Hit("c18/fork/co-fixture-not-imported")
+			continue
+		}
+		c18CarryOver(r, co, rc.F2, &rc)
+		if pa := co.Ctx.BlockHeader().ProposerAddress; len(pa) > 0 {
+			hd := rc.F2.Ctx.BlockHeader()
+			hd.ProposerAddress = pa
+			rc.F2.Ctx = rc.F2.Ctx.WithBlockHeader(hd)
+		}
+		co.SwapTo(rc.F2)
+		r.Hit("c18/fork/co-fixture-imported")
+	}
 	sort.Strings(res.Sigs)
 	ev.OK, ev.Taint = true, res.Sigs
 	c18fs.lastFork = r.nOps
